@@ -94,6 +94,16 @@ def make_workload(seed, i):
         pkg.files[fn].append(M.Record("SteerUsesTrans", (), [("t", M.Named("TransARec", (), "TransA")), ("count", M.Prim("uint8"))]))
         pkg.files[fn].append(M.Protocol("SteerTrans", [("one", M.Named("SteerUsesTrans"), False), ("many", M.Named("TransARec", (), "TransA"), True)]))
         desc["transitively_imported_package"] = True
+    nc = rng.fork("nscase")
+    if nc.chance(0.08):
+        # two imported namespaces that differ in the capitalisation of an acronym only (each back end derives directory and
+        # module names from a namespace in its own way)
+        pa = M.Package("SteerHTTPServer", "imp_httpserver_a", {"a.yml": [M.Record("SteerRequest", (), [("path", M.Prim("string")), ("size", M.Prim("uint32"))])]})
+        pb = M.Package("SteerHttpServer", "imp_httpserver_b", {"b.yml": [M.Record("SteerReply", (), [("status", M.Prim("int32")), ("body", M.Prim("string"))])]})
+        pkg.imports += [pa, pb]
+        fn = sorted(pkg.files)[0]
+        pkg.files[fn].append(M.Protocol("SteerExchange", [("request", M.Named("SteerRequest", (), "SteerHTTPServer"), False), ("replies", M.Named("SteerReply", (), "SteerHttpServer"), True)]))
+        desc["namespaces_that_differ_in_capitalisation_only"] = ["SteerHTTPServer", "SteerHttpServer"]
     sh = rng.fork("shared")
     if len(pkg.imports) >= 2 and sh.chance(0.6):
         # the same type name in two imported packages (each namespace has its own)
@@ -275,7 +285,10 @@ def run_case(sim, check, seed, i, K, n_crash):
             d = tw.tree_diff(results[0]["tree"], r2.get("tree", {})) if r2.get("tree") else [("died", "")]
             if muts or d or r2.get("status") != "returned":
                 where = (muts[0]["op"] + " " + muts[0]["path"]) if muts else str(d[:1])
-                viols.append(({"class": "rerun_mutates_output", "where": where.replace("/w/", "")[:200]},
+                rec_ = {"class": "rerun_mutates_output", "where": where.replace("/w/", "")[:200]}
+                if desc.get("namespaces_that_differ_in_capitalisation_only") and muts and all("steer_http_server" in o["path"].lower() or "steerhttpserver" in o["path"].lower() for o in muts):
+                    rec_["cause"] = "two_namespaces_one_output_directory"      # (identification of a recorded finding, known_findings.json)
+                viols.append((rec_,
                               {"mode": "rerun", "files": files, "cwd": cwd, "mapseeds": [mapseeds[0], ms], "seed": seed, "case": desc}))
                 break
         # crash at the k-th disk mutation, then run again: every file of the clean run has its bytes
@@ -477,6 +490,7 @@ def main():
             totals["cases_also_run_with_verbose"] += stats.get("verbose_run", 0)
             totals["cases_with_config_overrides"] += 1 if d.get("args") else 0
             totals["cases_with_several_unknown_config_keys"] += 1 if d.get("unknown_config_keys") else 0
+            totals["cases_with_namespaces_that_differ_in_capitalisation_only"] = totals.get("cases_with_namespaces_that_differ_in_capitalisation_only", 0) + (1 if d.get("namespaces_that_differ_in_capitalisation_only") else 0)
             totals["cases_with_more_than_a_hundred_errors"] = totals.get("cases_with_more_than_a_hundred_errors", 0) + (1 if d.get("more_than_a_hundred_errors") else 0)
             totals["cases_with_a_schema_text_beyond_64KiB"] = totals.get("cases_with_a_schema_text_beyond_64KiB", 0) + (1 if d.get("schema_text_beyond_64KiB") else 0)
             totals["cases_in_which_the_tool_ran_several_goroutines"] += 1 if stats.get("goroutines", 0) > 1 else 0
